@@ -1,5 +1,9 @@
 import Driver.Loop
 import DastardV.Model.C18
+import DastardV.Model.RingPackets
 open DastardV
 
-def main : IO Unit := driverMain C18.runLine
+def main : IO Unit := driverMain fun ts =>
+  match ts.head? with
+  | some "pad" | some "rpk" => RingPk.runLine ts
+  | _ => C18.runLine ts
